@@ -89,7 +89,7 @@ Lemma run_scenario_range cfg st id all_steps oe eff own st' res fld ev :
   run_scenario cfg st id all_steps oe eff own = (st', res, fld, ev) -> scen_res_ok res = true.
 Proof.
   unfold run_scenario.
-  destruct (negb (c_dry cfg) && c_expr cfg eff).
+  destruct (negb (c_dry cfg) && sel cfg eff).
   - destruct (run_tag_hooks cfg (push st) HBeforeTag own) as [[sa b1] e1].
     destruct (run_hook cfg sa HBeforeScenario id) as [[sb b2] e2].
     match goal with |- context [scenario_steps ?a ?b ?c ?d ?e ?f ?g ?h] =>
@@ -193,7 +193,7 @@ Lemma run_rule_range cfg st r anc inh fhb st' res fld ev :
   run_rule cfg st r anc inh fhb = (st', res, fld, ev) -> rule_res_ok res = true.
 Proof.
   unfold run_rule.
-  destruct (negb (c_dry cfg) && rule_should_run cfg anc r).
+  destruct (negb (c_dry cfg) && rule_runs cfg anc r).
   - destruct (run_tag_hooks cfg (push st) HBeforeTag (r_tags r)) as [[sa b1] e1].
     destruct (run_hook cfg sa HBeforeRule (r_id r)) as [[sb b2] e2].
     match goal with |- context [run_sitems ?a ?b ?c ?d ?e ?f] =>
@@ -203,13 +203,13 @@ Proof.
     destruct (run_tag_hooks cfg sc HAfterTag (r_tags r)) as [[sd b4] e4].
     destruct (pop sd) as [[st4 cr] evp].
     intros E; inversion E; subst; clear E. unfold rule_res_ok. cbn [rr_status rr_items]. rewrite E3, andb_true_r.
-    apply container_final_ok. destruct (r_items r); [|reflexivity]. destruct (rule_should_run cfg anc r); reflexivity.
+    apply container_final_ok. destruct (r_items r); [|reflexivity]. destruct (rule_runs cfg anc r); reflexivity.
   - match goal with |- context [run_sitems ?a ?b ?c ?d ?e ?f] =>
       destruct (run_sitems a b c d e f) as [[[st2 rs] itf] evi] eqn:E3 end.
     apply run_sitems_range in E3.
     destruct (pop st2) as [[st4 cr] evp].
     intros E; inversion E; subst; clear E. unfold rule_res_ok. cbn [rr_status rr_items]. rewrite E3, andb_true_r.
-    apply (container_final_ok false _ cr false). destruct (r_items r); [|reflexivity]. destruct (rule_should_run cfg anc r); reflexivity.
+    apply (container_final_ok false _ cr false). destruct (r_items r); [|reflexivity]. destruct (rule_runs cfg anc r); reflexivity.
 Qed.
 
 Lemma notrun_rule_range r inh : rule_res_ok (notrun_rule r inh) = true.
@@ -255,13 +255,13 @@ Proof.
     destruct (run_tag_hooks cfg sc HAfterTag (f_tags f)) as [[sd b4] e4].
     destruct (pop sd) as [[st4 cr] evp].
     intros E; inversion E; subst; clear E. unfold feat_res_ok. cbn [fr_status fr_items]. rewrite E3, andb_true_r.
-    apply container_final_ok. destruct (f_items f); [|reflexivity]. destruct (feature_should_run cfg f); reflexivity.
+    apply container_final_ok. destruct (f_items f); [|reflexivity]. match goal with |- context [feature_runs cfg ?b f] => destruct (feature_runs cfg b f) end; reflexivity.
   - match goal with |- context [run_fitems ?a ?b ?c ?d ?e ?f ?g] =>
       destruct (run_fitems a b c d e f g) as [[[st2 rs] itf] evi] eqn:E3 end.
     apply run_fitems_range in E3.
     destruct (pop st2) as [[st4 cr] evp].
     intros E; inversion E; subst; clear E. unfold feat_res_ok. cbn [fr_status fr_items]. rewrite E3, andb_true_r.
-    apply (container_final_ok false _ cr false). destruct (f_items f); [|reflexivity]. destruct (feature_should_run cfg f); reflexivity.
+    apply (container_final_ok false _ cr false). destruct (f_items f); [|reflexivity]. match goal with |- context [feature_runs cfg ?b f] => destruct (feature_runs cfg b f) end; reflexivity.
 Qed.
 
 Lemma notrun_feature_range f : feat_res_ok (notrun_feature f) = true.
